@@ -209,6 +209,40 @@ def make_nostream(case):
     return run
 
 
+def make_lookalike(case):
+    """Structures that differ only in the pointer's target type get their own pointer types (one cstruct, both readers)."""
+    cfg = case["cfg"]
+
+    def run(ctx):
+        from dissect.cstruct import cstruct
+        cs = cstruct(endian=cfg["endian"], pointer=cfg["pointer"])
+        cs.load("struct inner { uint8 x; int16 y; };\nstruct A { uint8 a; uint16 *p; uint8 t; };\nstruct B { uint8 a; inner *p; uint8 t; };\n"
+                "struct C { uint8 a; char *p; uint8 t; };\n", compiled=cfg["compiled"], align=cfg["align"])
+        w = G.PTR_BYTES[cfg["pointer"]]
+        data = ctx.bytes("b", 2 * w + 8)
+        big = cfg["endian"] == ">"
+        for name, tname in (("A", "uint16"), ("B", "inner"), ("C", "char"), ("A", "uint16")):
+            cls = cs.resolve(name)
+            v = cls.read(ctx.stream(data))
+            ctx.check(f"{name}: pointer member typed with its own target", v.p.__class__.type is cs.resolve(tname), v.p.__class__.type.__name__)
+        vb = cs.B.read(ctx.stream(data))
+        off = (1 if not cfg["align"] else w)
+        addr = R.decode_int(data, off, w, False, big)
+        try:
+            d = vb.p.dereference()
+        except Exception as e:  # noqa: BLE001
+            ctx.observe("deref", H.classify(e))
+            return
+        a = R.rt.concretize(addr)
+        ref = H.ref_parser(ctx, cfg)
+        try:
+            rv, _ = ref.parse(G.INNER, data, a)
+            ctx.check("B.p dereferences to the structure target", R.And(d.x == rv["x"], d.y == rv["y"]))
+        except R.RefEOF:
+            ctx.check("value only where parseable", False)
+    return run
+
+
 def make_width_history(case):
     """The pointer width follows the configuration at the time a pointer type is made, for targets seen before as well."""
     first, second, endian, compiled = case["first"], case["second"], case["endian"], case["compiled"]
@@ -242,6 +276,12 @@ def cases(tier, seed):
             for compiled in (False, True):
                 yield {"label": f"width-history {first}->{second}", "first": first, "second": second, "endian": endian, "compiled": compiled,
                        "make": "make_width_history"}
+    for ptr in ("uint8", "uint32"):
+        for endian in "<>":
+            for align in (False, True):
+                for compiled in (False, True):
+                    yield {"label": f"lookalike ptr={ptr}", "cfg": {"endian": endian, "align": align, "compiled": compiled, "pointer": ptr},
+                           "make": "make_lookalike"}
     for tname, TT in TARGETS:
         for ptr in ("uint8", "uint16", "uint32", "uint64"):
             for endian in "<>":
